@@ -12,7 +12,10 @@ macro, an array bound — `interrogate -od` is run on them and the values are re
 query interface (harness/c07_dump.py: enum values, manifest int values, array sizes) and compared
 with the value the spec state carries.  Cast-free expressions and all literals are also evaluated by the
 preprocessor itself (`#if (e) == v` selecting the value of a marker macro).  A batch that ends abnormally is bisected until the offending
-declarations are isolated.  Oracle sanity: g++ compiles the SAME headers and prints the same
+declarations are isolated.  Outside the value claim (classes of the spec): `div0` / `ovf` expressions have no
+value and must be reported as unevaluated; `uns` / `big` expressions (unsigned arithmetic that wraps, literals
+>= 2^31) and the table HARD must be unevaluated or exactly what g++ computes; an initialiser interrogate may
+not be able to evaluate (flag mu of ConstExprEnv) must not remove the declarations around it.  Oracle sanity: g++ compiles the SAME headers and prints the same
 constants; spec != g++ is a MachineryError, never a violation."""
 import os, json, subprocess, sys
 from ..common import MachineryError, VERIF
@@ -33,7 +36,7 @@ TLC_JOBS = {
                  ("NumLexMC", "NumLex_thorough", 4, None, None),
                  ("ConstExprEnvMC", "ConstExprEnv_thorough", 8, None, None)],
 }
-ENV_REPLAY_LIMIT = {"quick": 12000, "thorough": 10 ** 9}
+ENV_REPLAY_LIMIT = {"quick": 12000, "thorough": 250000}
 BATCH = 400
 LEAVES = [0, 1, -1, 2, 3, 7, 8, 31, 255, 256, 1073741824, 2147483647, -2147483647]
 DUMPER = os.path.join(VERIF, "harness", "c07_dump.py")
